@@ -29,7 +29,7 @@ RULE = (
 EXHAUSTIVE_PART = "per base configuration: all fault points of the classes body-exception, unserializable, unencodable, k-th filesystem call and LINE failpoints in the loading half and in the save sequence"
 ASSUMPTIONS = ["faults occur only at the enumerated points", "MemoryFS/NativeOSFS subclasses behave like their parents"]
 MONITORS = ["fault_free_control", "body_exception", "unserializable", "unencodable", "fs_call_fault", "line_failpoint", "line_failpoint_loading"]
-REQUIRED = ["noop_body_with_backup_requested", "body_Chained", "stale_backup_of_same_size_present", "output_is_input_under_another_spelling", "body_UnicodeEncodeError", "backup_after_inplace_chart_edit", "body_KeyboardInterrupt", "body_SystemExit", "body_CancelMutation", "body_CancelSub", "codec_error_handler_given_by_the_caller", "body_StopIteration", "body_GeneratorExit",
+REQUIRED = ["noop_body_with_backup_requested", "body_Chained", "stale_backup_of_same_size_present", "output_is_input_under_another_spelling", "body_UnicodeEncodeError", "backup_after_inplace_chart_edit", "body_KeyboardInterrupt", "body_SystemExit", "body_CancelMutation", "body_CancelSub", "codec_error_handler_given_by_the_caller", "unencodable_character_on_a_65536_seam_of_the_text", "strict_run_after_runs_with_a_lenient_error_handler", "body_StopIteration", "body_GeneratorExit",
             "unencodable_utf-8", "unencodable_cp1252", "unencodable_cp932", "unencodable_cp949", "fault_open_w_backup",
             "unencodable_object_in_key", "unencodable_object_in_chartkey", "unencodable_object_in_extradata", "unencodable_object_in_notes",
             "fault_open_w_output", "fault_write_backup", "fault_write_output", "fault_close", "partial_write",
@@ -77,9 +77,12 @@ def cases(ctx):
     # encodes thanks to it must still never cost the input file
     configs = configs + [dict(c, errors="replace") for c in configs if c["size"] == 5 and c["enc"] in ("cp1252", "cp932")
                          and c["output"] in (False, True) and "body" not in c]
+    # ... and the strict default again afterwards, in the same process and the same encodings
+    configs = configs + [dict(c, again=True) for c in configs if c["size"] == 5 and c["enc"] in ("cp1252", "cp932")
+                         and c["output"] is False and "body" not in c and "errors" not in c and c["fs"] == "memory"]
     for i, c in enumerate(configs):
         if ctx.mine(i):
-            yield {"base": c, "failpoints": "errors" not in c, "deep": ctx.tier == "thorough"}
+            yield {"base": c, "failpoints": "errors" not in c and "again" not in c, "deep": ctx.tier == "thorough"}
     ctx.exhaustive = True
 
 
@@ -160,6 +163,9 @@ def enumerate_faults(base, n_props, n_charts, control_trace, line_events, line0_
         faults.append({"class": "chart_without_notes", "where": "newchart", "index": n_charts})
     if base["enc"] == "utf-8":
         faults.append({"class": "unencodable", "where": "prop", "index": 0, "lone": "\ud83d"})
+    # the only unencodable character sits exactly on offset 65535 / 131071 / 65536 of the serialized text
+    for off in (65535, 131071, 65536):
+        faults.append({"class": "unencodable", "where": "seam", "index": off})
     for (k, kind, path, info) in control_trace:
         faults.append({"class": "fs", "k": k, "call": kind, "partial": False})
         if kind == "write":
@@ -333,6 +339,15 @@ def plant(s, fault, base):
                 if k in c:
                     del c[k]
         return
+    if where == "seam":
+        ch = fault.get("lone") or unencodable_char(base["enc"])
+        s["PAD"] = ""
+        s.move_to_end("PAD", last=False)
+        text = str(s)
+        pos = text.index("#PAD:") + 5
+        s["PAD"] = "x" * (i - pos) + ch + " tail"
+        assert str(s)[i] == ch
+        return
     if where == "key":
         s[bad if cls == "int" else type(bad)("K" + bad)] = "value under a bad key"
         return
@@ -463,6 +478,10 @@ def judge(ctx, base, fault, r, cls, one):
 
     if fc in ("int", "badreplace", "chart_without_notes", "unencodable"):
         ctx.mon("unencodable" if fc == "unencodable" else "unserializable")
+        if fault["where"] == "seam" and r["raised"] is not None:
+            ctx.feat("unencodable_character_on_a_65536_seam_of_the_text")
+        if base.get("again") and r["raised"] is not None:
+            ctx.feat("strict_run_after_runs_with_a_lenient_error_handler")
         if fault["where"] in ("key", "chartkey", "extradata", "notes") and r["raised"] is not None:
             ctx.feat(f"{'unencodable' if fc == 'unencodable' else 'unserializable'}_object_in_{fault['where']}")
         if base.get("errors"):
